@@ -128,6 +128,75 @@ def run_case(shape_name, leaf_names, mode, collation, mounts):
             T.build_sources(tmp)
 
 
+@functools.lru_cache(None)
+def mixed_class(kind: str, mode_x: str, mode_y: str):
+    """two file fields with DIFFERENT copy modes (collation any)"""
+    K = KIND_CLASS[kind]
+    inputs = {
+        "x": python.arg(type=K, copy_mode=FileSet.CopyMode[mode_x]),
+        "y": python.arg(type=K, copy_mode=FileSet.CopyMode[mode_y]),
+    }
+    ns = {}
+    exec("def staged2(x, y):\n    return 0\n", ns)
+    return python.define(ns["staged2"], inputs=inputs, outputs={"out": int})
+
+
+def run_mixed_case(kind, leaf, mode_x, mode_y, same_object):
+    """the same file-set (the same object, or an equal one) given to two fields with different copy modes: each field is
+    staged according to ITS OWN mode, whatever the other field did with the file"""
+    from pydra.engine.job import Job
+
+    tmp, src, before, sub = _W["root"], _W["src"], _W["before"], _W["sub"]
+    job = None
+    try:
+        leaves = T.leaf_factory(src)
+        vx = leaves[leaf]()
+        vy = vx if same_object else leaves[leaf]()
+        values = {"x": vx, "y": vy}
+        task = mixed_class(kind, mode_x, mode_y)(**values)
+        job = Job(task, submitter=sub, name="staged2")
+        job.cache_dir.mkdir()
+        desc = {"values": repr(values).replace(str(tmp), "")[:300]}
+        try:
+            staged = job.inputs
+        except Exception as e:
+            desc["raised"] = type(e).__name__
+            return [f"raised: {type(e).__name__}: {str(e)[:200]}".replace(str(tmp), "")], desc
+        probs, kinds = [], []
+        for name, mode in (("x", mode_x), ("y", mode_y)):
+            p, info = T.c34_problems(values[name], staged[name], T.MODES[mode], job.cache_dir, src, before, forbidden={}, collation="any")
+            probs += [f"field {name} (copy_mode={mode}): {x}".replace(str(tmp), "") for x in p]
+            kinds += info["kinds"]
+        if T.snapshot(src) != before:
+            probs.append("loss: staging modified the original files")
+        desc["staged"] = repr({k: staged[k] for k in values}).replace(str(tmp), "")[:300]
+        desc["kinds"] = kinds
+        return probs, desc
+    finally:
+        if job is not None:
+            shutil.rmtree(job.cache_dir, ignore_errors=True)
+        if T.snapshot(src) != before:
+            shutil.rmtree(src, ignore_errors=True)
+            T.build_sources(tmp)
+
+
+def _mixed_worker(args):
+    return args, run_mixed_case(*args)
+
+
+def mixed_cases(ctx):
+    modes = list(T.MODES)
+    out = []
+    for kind, leaf in (("F", "F1"), ("D", "D1"), ("I", "I1")) if ctx.thorough else (("F", "F1"), ("I", "I1")):
+        for mx in modes:
+            for my in modes:
+                if mx == my:
+                    continue
+                for same in (True, False):
+                    out.append((kind, leaf, mx, my, same))
+    return out
+
+
 def run_cases(cases, procs):
     import multiprocessing as mp
 
@@ -297,6 +366,28 @@ def _run(ctx):
             if probs:
                 case["problems"] = probs[:6]
                 ctx.fail(classify(*args, probs), f"C34: staging {shape_name} of {list(leaf_names)} mode={mode} collation={collation} mounts={mounts}: {probs[0]}", case, domain=dom)
+
+    mc = mixed_cases(ctx)
+    domm = ctx.domain(
+        "same-file-in-two-fields-with-different-copy-modes",
+        bound=f"a file F1 / an image+header set I1" + (" / a directory D1" if ctx.thorough else "") + f" given to two fields x, y of one task: every ordered pair of different copy modes of the {len(T.MODES)} x (the same object in both fields, two equal objects)",
+        rule="one real Job + Job.inputs per case; each field must be staged as its own mode allows (same clauses as staging-by-mode, per field); non-trivial = always",
+        exhaustive=True,
+    )
+    import multiprocessing as mp
+
+    base2 = tempfile.mkdtemp(prefix="vf_c34m_")
+    try:
+        with mp.get_context("fork").Pool(ctx.pick(4, 8), initializer=_worker_init, initargs=(base2,)) as pool:
+            for args, (probs, desc) in pool.imap(_mixed_worker, mc, chunksize=8):
+                kind, leaf, mx, my, same = args
+                case = {"mixed": True, "kind": kind, "leaf": leaf, "mode_x": mx, "mode_y": my, "same_object": same, **desc}
+                domm.case(args, sample=case)
+                if probs:
+                    case["problems"] = probs[:6]
+                    ctx.fail(None, f"C34: {leaf} given to x (copy_mode={mx}) and y (copy_mode={my}), {'same object' if same else 'equal objects'}: {probs[0]}", case, domain=domm)
+    finally:
+        shutil.rmtree(base2, ignore_errors=True)
 
     dom2 = ctx.domain(
         "shell-task-end-to-end",
